@@ -239,6 +239,29 @@ theorem C12_seat_prewired_witness :
     (2 : Nat) ∈ (seat preG [(0, 4)] [0] [4, 7]).conns 7 ∧ (7 : Nat) ∉ (seat preG [(0, 4)] [0] [4, 7]).conns 2 := by
   refine ⟨C12_history_current _ _ _ _, by decide, by decide, by decide⟩
 
+/-- `Node.load` in place of a whole node: old channels hand over to the loaded channels of the same TYPE and label, one
+after the other; the invariant survives for every list of pairs (a pair of different kinds is refused by the model) -/
+theorem C12_reload (g : G) (pairs : List (Nat × Nat)) (h : Inv g) : Inv (reloadConn g pairs) :=
+  reloadConn_inv pairs g h
+
+/-- matching by LABEL alone is not enough (seeded change C12-12): a node with an input 1 and an output 3 of the same
+label, fed by output 0 and feeding input 2; the loaded channels are 5 (input) and 6 (output). Handing the old INPUT's
+list to the loaded OUTPUT is refused by the model (`moveChan … = false`), and doing it anyway joins output 0 with
+output 6: the result violates conjugate typing -/
+def lblKind : Nat → Kind | 0 => .dataOut | 3 => .dataOut | 6 => .dataOut | _ => .dataIn
+def lblG : G := ConnOps.run (empty lblKind (fun c => c) (fun _ _ => true)) [.connect 1 [0], .connect 2 [3]]
+theorem C12_reload_by_label_witness :
+    Inv lblG ∧ (moveChan lblG 1 6).2 = false ∧ (moveChan lblG 1 5).2 = true ∧
+    (0 : Nat) ∈ (seat lblG [(1, 6)] [1] [6]).conns 6 ∧ ¬ Inv (seat lblG [(1, 6)] [1] [6]) := by
+  refine ⟨C12_history_current _ _ _ _, by decide, by decide, by decide, ?_⟩
+  intro hi
+  have := hi.typed 6 0 (by decide)
+  revert this
+  decide
+
+example : (reloadConn lblG [(1, 5), (3, 6)]).conns 5 = [0] ∧ (reloadConn lblG [(1, 5), (3, 6)]).conns 6 = [2] ∧
+    (reloadConn lblG [(1, 5), (3, 6)]).conns 0 = [5] ∧ (reloadConn lblG [(1, 5), (3, 6)]).conns 1 = [] := by decide
+
 /-! ## refusals per side, in the tree's order of half-removals -/
 
 /-- where no channel refuses (the tree as it is), the half-by-half transcription IS the atomic one
@@ -427,6 +450,8 @@ end PwVerif.C12
 #print axioms PwVerif.C12.C12_replace_refused_noop
 #print axioms PwVerif.C12.C12_restore_insert
 #print axioms PwVerif.C12.C12_load_in_place
+#print axioms PwVerif.C12.C12_reload
+#print axioms PwVerif.C12.C12_reload_by_label_witness
 #print axioms PwVerif.C12.C12_call
 #print axioms PwVerif.C12.C12_seat_prewired_witness
 #print axioms PwVerif.C12.C12_pull_restore
